@@ -84,6 +84,21 @@ Theorem C15_both_flags_is_none : forall isd term rep eq, replace_flags isd term 
 Proof. exact replace_both_flags. Qed.
 Print Assumptions C15_both_flags_is_none.
 
+(* The READER's notion of identifier: `x' = -x/tau` is the differential equation of x, so an identifier also ends at the
+   derivative mark ' (is_delim_spec).  The code's set allowed_follow_ops lacks ' (finding C15-primed-lhs, repair
+   fixes/fix_C15_prime_delim.diff, switch Replace.fixed_prime).  For either value of the switch: on equations without the
+   mark — or with the repaired set — the loop returns the sided word-wise substitution for the reader's identifiers. *)
+Theorem C15_replace_reader : forall term rep, term <> [] -> nodelim is_delim_spec term = true ->
+  forall rhs lhs eq, (fixed_prime = true \/ prime_free eq = true) ->
+  replace_flags is_delim term rep rhs lhs eq = Some (replace_words_sided is_delim_spec term rep rhs lhs eq).
+Proof. exact (replace_flags_reader fixed_prime). Qed.
+Print Assumptions C15_replace_reader.
+(* before the repair the guard is needed: replace("x' = -x/tau", "x", "z") keeps the primed left-hand side *)
+Theorem C15_primed_lhs_before_fix : exists eq, prime_free eq = false /\
+  replace (is_delim_gen false) (L "x"%string) (L "z"%string) eq <> Some (replace_words is_delim_spec (L "x"%string) (L "z"%string) eq).
+Proof. exact replace_prime_before_fix. Qed.
+Print Assumptions C15_primed_lhs_before_fix.
+
 (* _update_equation(replace, remove, append, prepend): the sequential composition of word-wise substitutions *)
 Theorem C15_update_equation_full : forall isd e eq, edit_ok isd e = true ->
   update_equation isd e eq = Some (update_equation_spec isd e eq).
@@ -104,6 +119,18 @@ Theorem C15_inheritance_equations : forall V isd beqs bvars e add vupd, edit_ok 
   option_map fst (update_op V isd beqs bvars (EqEdit e add) vupd) = Some (map (update_equation_spec isd e) beqs ++ add).
 Proof. exact update_op_equations_edit. Qed.
 Print Assumptions C15_inheritance_equations.
+
+(* identical arguments give identical derived templates: k derivations from one base with the SAME edit dictionary object.
+   update_template pops `add` out of the caller's dictionary (finding C15-D99-edit-dict, repair fixes/fix_D99.diff, switch
+   Replace.fixed_D99); for either value of the switch, under the guard "repaired, or the dictionary has no `add`, or is used once" *)
+Theorem C15_edit_dict_reuse : forall V isd k beqs bvars u vupd, (fixed_D99 = true \/ reuse_guard k u = true) ->
+  derive_reusing V isd k beqs bvars u vupd = derive_spec V isd k beqs bvars u vupd.
+Proof. intros V isd. exact (derive_reusing_ok V isd fixed_D99). Qed.
+Print Assumptions C15_edit_dict_reuse.
+Theorem C15_edit_dict_before_fix : exists beqs u,
+  derive_reusing_gen str is_delim false 2 beqs [] u [] <> derive_spec str is_delim 2 beqs [] u [].
+Proof. exact derive_before_fix. Qed.
+Print Assumptions C15_edit_dict_before_fix.
 
 (* ===================== (b) to_yaml / from_yaml ===================== *)
 
@@ -130,6 +157,14 @@ Theorem C15_shared_operator_variants_roundtrip :
   roundtrip_ok w_rename = true /\ roundtrip_ok w_three = true.
 Proof. exact load_dump_shared_operator_variants. Qed.
 Print Assumptions C15_shared_operator_variants_roundtrip.
+
+(* template sets spread over several files (the functions mload_circ, mload_flat, mload_node, mload_op of Yaml.v): the template loaded for a node / sub-circuit key depends on the
+   file of the referencing template and on ITS OWN reference only — a bare name is looked up in the referencing file whatever
+   the neighbouring references point to (seed C15-m5 breaks exactly this) *)
+Theorem C15_references_pointwise : forall A (f : ref -> option A) l l', mload_keyed f l = Some l' ->
+  Forall2 (fun kr kx => fst kr = fst kx /\ f (snd kr) = Some (snd kx)) l l'.
+Proof. exact @mload_keyed_pointwise. Qed.
+Print Assumptions C15_references_pointwise.
 
 (* non-vacuity: a two-level circuit with a shared operator, the same override on every node, an edge template with
    an override and a top-level edge satisfies WFy, round-trips, and has 4 nodes; the replace theorem's hypotheses
